@@ -155,6 +155,42 @@ def decide(prop: str, vres: dict, kani: dict, tier: str, seed: int, t0: float, m
     for o in rep.get('outlines', []):
         if not o['unchanged']:
             incomplete.add(o['fn'])
+    # degraded run (tool/run_verus.py): functions Verus could not take on this tree were left out (contract assumed, body not
+    # seen). They and everything that (transitively) calls them are not decided on this tree.
+    degraded = {d_['fn']: d_['reason'] for d_ in rep.get('degraded', [])}
+    if degraded:
+        def last(pth): return re.sub(r'<.*$', '', pth.split('::')[-1])
+        tainted = set(degraded)
+        changed = True
+        while changed:
+            changed = False
+            for fi_ in rep.get('fns', []):
+                if fi_['path'] in tainted:
+                    continue
+                owner = fi_['path'].split('::')[0] if '::' in fi_['path'] else None
+                for c_ in fi_.get('calls', []):
+                    hit = False
+                    for t_ in tainted:
+                        if c_.startswith('.'):
+                            hit = last(t_) == c_[1:]
+                        elif c_.startswith('Self::'):
+                            hit = owner is not None and re.sub(r'<.*$', '', t_) == owner + '::' + c_[6:]
+                        elif '::' in c_:
+                            hit = re.sub(r'<.*$', '', t_) == c_ or (last(t_) == c_.split('::')[-1] and c_.split('::')[0] in ('ReadBox', 'WriteBox', 'Mp4Box', 'From', 'TryFrom', 'Default'))
+                        else:
+                            hit = t_ == c_
+                        if hit:
+                            break
+                    if hit:
+                        tainted.add(fi_['path']); changed = True
+                        break
+        for t_ in sorted(tainted):
+            if t_ in fns_serving:
+                if t_ in degraded:
+                    undecided.append('%s is outside what Verus can take on this tree (%s): not verified' % (t_, degraded[t_][:120]))
+                else:
+                    undecided.append('%s relies on a function that could not be verified on this tree' % t_)
+        incomplete |= tainted
     for f in vres.get('failures', []):
         fi = fninfo.get(f.get('fn'))
         if f.get('fn') in incomplete and f['class'] != 'unsupported':
@@ -306,6 +342,7 @@ def decide(prop: str, vres: dict, kani: dict, tier: str, seed: int, t0: float, m
         # property undecided); the spec-level round-trip lemmas serve C04/C05
         'spec_lemmas_proved': len([k for k, v in vfn.items() if k.count('::') == 1 and all(x.get('success') for x in v) and any(x.get('mode') == 'proof' for x in v)]),
         'roundtrip_lemmas_proved': sorted(k.split('::')[-1] for k, v in vfn.items() if k.endswith('_roundtrip') and all(x.get('success') for x in v)) if prop in ('C04', 'C05', 'C14') else None,
+        'degraded_functions': sorted(d_['fn'] for d_ in rep.get('degraded', [])),
         'extraction_rules_applied': len(rep.get('rules', [])),
         'items_dropped': len(rep.get('dropped', [])),
     }
